@@ -7,11 +7,13 @@ use neurons::tensor::Tensor;
 use rayon::prelude::*;
 use serde_json::{json, Value};
 
-const PAIRS: [(f32, f32); 16] = [
+const PAIRS: [(f32, f32); 18] = [
     (0.0, 1.0), (-1.0, 1.0), (-7.7, -0.1), (0.1, 0.3), (-0.3, -0.1), (1.0e-3, 1.1e-3),
     (-1.0e6, 1.0e6), (5.0, 5.0), (-100.0, -99.9), (0.0, 3.0e-39), (16777215.0, 16777216.0), (-2.5, 7.25),
     // degenerate and narrower-than-epsilon intervals around ordinary magnitudes
     (0.0, 0.0), (1.0, 1.0), (-1.0, -1.0), (0.0, 1.0e-8),
+    // degenerate intervals at constants that are not short dyadic numbers
+    (0.1, 0.1), (-0.3, -0.3),
 ];
 
 fn exp2(e: i64) -> f32 {
@@ -209,7 +211,7 @@ pub fn replay_random(case: &Value, rep: &mut Report) {
             // a request the library refuses (a shape it has no random initialiser for) must leave nothing behind: the
             // valid requests that follow are served as if it had never been made
             let _ = guarded(|| Tensor::random(neurons::tensor::Shape::Quintuple(1, 1, 1, 1, 1), 0.0, 1.0));
-            for (lo, hi) in [(-1.0f32, 1.0f32), (-7.7, -0.1), (0.25, 0.25)] {
+            for (lo, hi) in [(-1.0f32, 1.0f32), (-7.7, -0.1), (0.25, 0.25), (0.1, 0.1), (1.0, 2.0)] {
                 rep.checks += 1;
                 match guarded(|| Tensor::random(shape.clone(), lo, hi)) {
                     Err(p) => rep.mismatch("C18", "tensor_random_panicked", &id, json!({"panic": p}), case),
@@ -244,7 +246,7 @@ fn nested_matches(d: &neurons::tensor::Data, dims: &[usize]) -> bool {
 }
 
 /// Exhaustive sweep over all generator states (thorough tier): the specification's predicates
-/// "value in [min, max]" and "index < len" for 16 intervals and 10 lengths.
+/// "value in [min, max]" and "index < len" for 18 intervals and 10 lengths.
 pub fn sweep(rep: &mut Report, stride: u64) {
     let m: u64 = 2147483647;
     let lens: [usize; 10] = [1, 2, 3, 5, 7, 10, 16, 33, 64, 1000];
